@@ -8,6 +8,7 @@
 #include <limits>
 #include <sstream>
 
+#include <thread>
 #include "common/verif.h"
 #include "ref/ref_format.h"
 #include "gen/gen_format.h"
@@ -182,6 +183,7 @@ struct Outcome { int kind = K_OUTPUT; std::string bytes, what; };
 
 template <class F> Outcome observe(F &&f) {
     Outcome o;
+    verif::pre_errno();
     try { o.bytes = f(); }
     catch (const ST::bad_format &e) { o.kind = K_BAD_FORMAT; o.what = e.what(); }
     catch (const ST::unicode_error &e) { o.kind = K_UNICODE_ERROR; o.what = e.what(); }
@@ -194,6 +196,16 @@ template <class F> Outcome observe(F &&f) {
     }
     catch (...) { o.kind = K_OTHER; o.what = verif::describe_current_exception(); }
     return o;
+}
+// After a call ended (normally or with an exception) the FILE* must be usable by any other thread: a stdio lock taken inside
+// the library and not released would block the next writer forever.
+bool g_file_left_locked = false;
+void probe_file_lock(FILE *fp) {
+    if (!fp) return;
+    bool busy = false;
+    std::thread t([&] { if (ftrylockfile(fp) == 0) funlockfile(fp); else busy = true; });
+    t.join();
+    if (busy) g_file_left_locked = true;
 }
 struct MemFile {           // FILE* whose content can be read back; released on every path
     char *buf = nullptr; size_t len = 0; FILE *fp;
@@ -212,7 +224,8 @@ void run_and_judge(const std::string &fmt, bool null_format, const ArgList &a, V
     vd.want = ref::interpret(fmt, a.r);
     vd.def = observe([&] { ST::string s = fg::call_n(a.v, [&](auto... x) { return ST::format(fs, x...); }); return std::string(s.c_str(), s.size()); });
     vd.raw = observe([&] { ST::string s = fg::call_n(a.v, [&](auto... x) { return ST::format(ST::assume_valid, fs, x...); }); return std::string(s.c_str(), s.size()); });
-    vd.file = observe([&] { MemFile m; if (!m.fp) return std::string(); fg::call_n(a.v, [&](auto... x) { ST::printf(m.fp, fs, x...); return 0; }); return m.finish(); });
+    g_file_left_locked = false;
+    vd.file = observe([&] { MemFile m; if (!m.fp) return std::string(); try { fg::call_n(a.v, [&](auto... x) { ST::printf(m.fp, fs, x...); return 0; }); } catch (...) { probe_file_lock(m.fp); throw; } probe_file_lock(m.fp); return m.finish(); });
     vd.stream = observe([&] { std::ostringstream os; fg::call_n(a.v, [&](auto... x) { ST::writef(os, fs, x...); return 0; }); return os.str(); });
 
     // a FILE* that accepts nothing (unbuffered /dev/full): the call must end the same way, not spin on the failed writes
@@ -250,6 +263,7 @@ void run_and_judge(const std::string &fmt, bool null_format, const ArgList &a, V
         }
         if (null_format && o.kind != K_INVALID_ARGUMENT && vd.why.empty()) vd.why = std::string(sink[i]) + " did not throw std::invalid_argument for a null format string (" + kname(o.kind) + ")";
     }
+    if (vd.why.empty() && g_file_left_locked) vd.why = std::string("ST::printf(FILE*) ended (") + kname(vd.file.kind) + ") and left the FILE* locked: another thread that writes to it would block forever";
     if (!vd.why.empty()) return;
     // the sinks agree on the kind of outcome (the validating call may add unicode_error for the finished result)
     if (vd.raw.kind != vd.file.kind || vd.raw.kind != vd.stream.kind)
